@@ -50,23 +50,23 @@ Ltac brk := unfold seg, recv_tail, dlc_recv_item, accept_item, connect_item, clo
 
 (* the segment never changes the kind *)
 Lemma seg_kd v p s tm orc : kd (o_sock (seg v p s tm orc)) = kd s.
-Proof. destruct s as [k x b i tb q n rb sb sl ak]. brk. cbn [kd st bound intab tabled rq sq rbuf sbuf slots acks].
+Proof. destruct s as [k x b i tb q n rb sb sl ak sv]. brk. cbn [kd st bound intab tabled rq sq rbuf sbuf slots acks srv].
   destruct p; dm; reflexivity. Qed.
 
 Lemma seg_tabled v p s tm orc : tabled s = true -> tabled (o_sock (seg v p s tm orc)) = true.
-Proof. destruct s as [k x b i tb q n rb sb sl ak]. brk. cbn [kd st bound intab tabled rq sq rbuf sbuf slots acks].
+Proof. destruct s as [k x b i tb q n rb sb sl ak sv]. brk. cbn [kd st bound intab tabled rq sq rbuf sbuf slots acks srv].
   intro; subst tb. destruct p; dm; reflexivity. Qed.
 
 (* (i) guard in the same hold: a thread that starts to wait leaves the socket open *)
 Lemma seg_wait_open p s tm orc c q :
   o_act (seg Fixed p s tm orc) = AWait c q -> st (o_sock (seg Fixed p s tm orc)) <> SHUTDOWN.
-Proof. destruct s as [k x b i tb q0 n rb sb sl ak]. brk. cbn [kd st bound intab tabled rq sq rbuf sbuf slots acks].
+Proof. destruct s as [k x b i tb q0 n rb sb sl ak sv]. brk. cbn [kd st bound intab tabled rq sq rbuf sbuf slots acks srv].
   destruct p; dm; cbn; try discriminate; intros _; destruct x; cbn in *; discriminate. Qed.
 
 (* the condition waited on is one of the conditions close() notifies for this kind of object *)
 Lemma seg_wait_cond p s tm orc c q :
   pk p (kd s) = true -> o_act (seg Fixed p s tm orc) = AWait c q -> In c (close_conds (kd s)).
-Proof. destruct s as [k x b i tb q0 n rb sb sl ak]. brk. cbn [kd st bound intab tabled rq sq rbuf sbuf slots acks].
+Proof. destruct s as [k x b i tb q0 n rb sb sl ak sv]. brk. cbn [kd st bound intab tabled rq sq rbuf sbuf slots acks srv].
   destruct p; destruct k; cbn [pk kind_eqb negb orb]; try discriminate; intros _; dm; cbn; try discriminate;
     intro H; inversion H; subst; cbn; tauto. Qed.
 
@@ -76,14 +76,14 @@ Lemma seg_next_pk p s tm orc :
   | AGoto q | AWait _ q => pk q (kd s) = true
   | _ => True
   end.
-Proof. destruct s as [k x b i tb q0 n rb sb sl ak]. brk. cbn [kd st bound intab tabled rq sq rbuf sbuf slots acks].
+Proof. destruct s as [k x b i tb q0 n rb sb sl ak sv]. brk. cbn [kd st bound intab tabled rq sq rbuf sbuf slots acks srv].
   destruct p; destruct k; cbn [pk kind_eqb negb orb]; try discriminate; intros _; dm; cbn; auto. Qed.
 
 (* (ii) a segment that shuts the socket down notifies every condition of the object *)
 Lemma seg_shut_notifies p s tm orc :
   st s <> SHUTDOWN -> st (o_sock (seg Fixed p s tm orc)) = SHUTDOWN ->
   o_nall (seg Fixed p s tm orc) = close_conds (kd s).
-Proof. destruct s as [k x b i tb q0 n rb sb sl ak]. brk. cbn [kd st bound intab tabled rq sq rbuf sbuf slots acks].
+Proof. destruct s as [k x b i tb q0 n rb sb sl ak sv]. brk. cbn [kd st bound intab tabled rq sq rbuf sbuf slots acks srv].
   intro Hn. destruct p; dm; cbn; intro H; try reflexivity; try congruence;
     try (destruct x; cbn in *; congruence). Qed.
 
@@ -91,7 +91,7 @@ Proof. destruct s as [k x b i tb q0 n rb sb sl ak]. brk. cbn [kd st bound intab 
 Lemma seg_absorb p s tm orc :
   st s = SHUTDOWN -> (kd s = DLC -> rq s = []) -> pk p (kd s) = true ->
   st (o_sock (seg Fixed p s tm orc)) = SHUTDOWN.
-Proof. destruct s as [k x b i tb q0 n rb sb sl ak]. brk. cbn [kd st bound intab tabled rq sq rbuf sbuf slots acks].
+Proof. destruct s as [k x b i tb q0 n rb sb sl ak sv]. brk. cbn [kd st bound intab tabled rq sq rbuf sbuf slots acks srv].
   intros -> Hq. destruct p; destruct k; cbn [pk kind_eqb negb orb]; try discriminate; intros _;
     try (rewrite (Hq eq_refl)); cbn; dm; cbn; reflexivity. Qed.
 
@@ -106,27 +106,27 @@ Section tabled_facts.
   Let r := seg Fixed p s tm orc.
 
   Lemma seg_wait_tabled c q : o_act r = AWait c q -> tabled (o_sock r) = true.
-  Proof. subst r. revert Hp Hd Hs Hu Hk. destruct s as [k x b i tb q0 n rb sb sl ak]. brk.
-    cbn [kd st bound intab tabled rq sq rbuf sbuf slots acks].
-    destruct tb; [intros; apply (seg_tabled Fixed p (mkSock k x b i true q0 n rb sb sl ak) tm orc eq_refl)|].
+  Proof. subst r. revert Hp Hd Hs Hu Hk. destruct s as [k x b i tb q0 n rb sb sl ak sv]. brk.
+    cbn [kd st bound intab tabled rq sq rbuf sbuf slots acks srv].
+    destruct tb; [intros; apply (seg_tabled Fixed p (mkSock k x b i true q0 n rb sb sl ak sv) tm orc eq_refl)|].
     intros Hp Hd Hs Hu Hk. destruct (Hu eq_refl) as (-> & -> & ->).
     destruct p; destruct k; cbn [pk kind_eqb negb orb ptab] in *; try discriminate;
       try (specialize (Hp eq_refl); discriminate); try (specialize (Hs eq_refl); discriminate);
       destruct x; cbn in *; try (specialize (Hd eq_refl eq_refl); discriminate); dm; cbn; try discriminate. Qed.
 
   Lemma seg_goto_ptab q : o_act r = AGoto q -> ptab q (kd s) = true -> tabled (o_sock r) = true.
-  Proof. subst r. revert Hp Hd Hs Hu Hk. destruct s as [k x b i tb q0 n rb sb sl ak]. brk.
-    cbn [kd st bound intab tabled rq sq rbuf sbuf slots acks].
-    destruct tb; [intros; apply (seg_tabled Fixed p (mkSock k x b i true q0 n rb sb sl ak) tm orc eq_refl)|].
+  Proof. subst r. revert Hp Hd Hs Hu Hk. destruct s as [k x b i tb q0 n rb sb sl ak sv]. brk.
+    cbn [kd st bound intab tabled rq sq rbuf sbuf slots acks srv].
+    destruct tb; [intros; apply (seg_tabled Fixed p (mkSock k x b i true q0 n rb sb sl ak sv) tm orc eq_refl)|].
     intros Hp Hd Hs Hu Hk. destruct (Hu eq_refl) as (-> & -> & ->).
     destruct p; destruct k; cbn [pk kind_eqb negb orb ptab] in *; try discriminate;
       try (specialize (Hp eq_refl); discriminate); try (specialize (Hs eq_refl); discriminate);
       dm; cbn; intro H; inversion H; subst; cbn; try discriminate; auto. Qed.
 
   Lemma seg_dlc_live : kd s = DLC -> live (st (o_sock r)) = true -> tabled (o_sock r) = true.
-  Proof. subst r. revert Hp Hd Hs Hu Hk. destruct s as [k x b i tb q0 n rb sb sl ak]. brk.
-    cbn [kd st bound intab tabled rq sq rbuf sbuf slots acks].
-    destruct tb; [intros; apply (seg_tabled Fixed p (mkSock k x b i true q0 n rb sb sl ak) tm orc eq_refl)|].
+  Proof. subst r. revert Hp Hd Hs Hu Hk. destruct s as [k x b i tb q0 n rb sb sl ak sv]. brk.
+    cbn [kd st bound intab tabled rq sq rbuf sbuf slots acks srv].
+    destruct tb; [intros; apply (seg_tabled Fixed p (mkSock k x b i true q0 n rb sb sl ak sv) tm orc eq_refl)|].
     intros Hp Hd Hs Hu Hk ->. destruct (Hu eq_refl) as (-> & -> & ->).
     destruct p; cbn [pk kind_eqb negb orb ptab] in *; try discriminate;
       try (specialize (Hp eq_refl); discriminate);
@@ -134,11 +134,11 @@ Section tabled_facts.
 
   Lemma seg_untabled : tabled (o_sock r) = false ->
     bound (o_sock r) = false /\ intab (o_sock r) = false /\ rq (o_sock r) = [].
-  Proof. subst r. revert Hu. destruct s as [k x b i tb q0 n rb sb sl ak].
-    cbn [kd st bound intab tabled rq sq rbuf sbuf slots acks].
+  Proof. subst r. revert Hu. destruct s as [k x b i tb q0 n rb sb sl ak sv].
+    cbn [kd st bound intab tabled rq sq rbuf sbuf slots acks srv].
     destruct tb.
-    - intros _ H. rewrite (seg_tabled Fixed p (mkSock k x b i true q0 n rb sb sl ak) tm orc eq_refl) in H. discriminate.
-    - brk. cbn [kd st bound intab tabled rq sq rbuf sbuf slots acks]. intros Hu. destruct (Hu eq_refl) as (-> & -> & ->). destruct p; dm; cbn; auto; discriminate. Qed.
+    - intros _ H. rewrite (seg_tabled Fixed p (mkSock k x b i true q0 n rb sb sl ak sv) tm orc eq_refl) in H. discriminate.
+    - brk. cbn [kd st bound intab tabled rq sq rbuf sbuf slots acks srv]. intros Hu. destruct (Hu eq_refl) as (-> & -> & ->). destruct p; dm; cbn; auto; discriminate. Qed.
 End tabled_facts.
 
 (* the table relation of one object: in the table, or shut down *)
@@ -148,7 +148,7 @@ Lemma seg_tab_rel p s tm orc :
   (tabled s = true -> intab s = true \/ st s = SHUTDOWN) ->
   tabled (o_sock (seg Fixed p s tm orc)) = true ->
   intab (o_sock (seg Fixed p s tm orc)) = true \/ st (o_sock (seg Fixed p s tm orc)) = SHUTDOWN.
-Proof. destruct s as [k x b i tb q0 n rb sb sl ak]. brk. cbn [kd st bound intab tabled rq sq rbuf sbuf slots acks].
+Proof. destruct s as [k x b i tb q0 n rb sb sl ak sv]. brk. cbn [kd st bound intab tabled rq sq rbuf sbuf slots acks srv].
   intros H4 Hq Hk Ht.
   destruct p; try (specialize (H4 eq_refl); subst x); destruct k; cbn [pk kind_eqb negb orb] in Hk; try discriminate;
     try specialize (Hq eq_refl); dm; cbn; intro H; subst; auto;
@@ -159,28 +159,28 @@ Proof. destruct s as [k x b i tb q0 n rb sb sl ak]. brk. cbn [kd st bound intab 
 Lemma seg_intab_false p s tm orc :
   intab s = false -> o_act (seg Fixed p s tm orc) <> AGoto PClose4 \/ True ->
   needs_llc_lock p = false -> intab (o_sock (seg Fixed p s tm orc)) = false.
-Proof. destruct s as [k x b i tb q0 n rb sb sl ak]. brk. cbn [kd st bound intab tabled rq sq rbuf sbuf slots acks].
+Proof. destruct s as [k x b i tb q0 n rb sb sl ak sv]. brk. cbn [kd st bound intab tabled rq sq rbuf sbuf slots acks srv].
   intros -> _. destruct p; cbn; try discriminate; intros _; dm; reflexivity. Qed.
 
 Lemma seg_goto_close4 p s tm orc :
   o_act (seg Fixed p s tm orc) = AGoto PClose4 -> st (o_sock (seg Fixed p s tm orc)) = SHUTDOWN.
-Proof. destruct s as [k x b i tb q0 n rb sb sl ak]. brk. cbn [kd st bound intab tabled rq sq rbuf sbuf slots acks].
+Proof. destruct s as [k x b i tb q0 n rb sb sl ak sv]. brk. cbn [kd st bound intab tabled rq sq rbuf sbuf slots acks srv].
   destruct p; dm; cbn; try discriminate; auto. Qed.
 
 Lemma seg_shutq p s tm orc :
   (kd s = DLC -> st s = SHUTDOWN -> rq s = []) -> pk p (kd s) = true ->
   kd s = DLC -> st (o_sock (seg Fixed p s tm orc)) = SHUTDOWN -> rq (o_sock (seg Fixed p s tm orc)) = [].
-Proof. destruct s as [k x b i tb q0 n rb sb sl ak]. brk. cbn [kd st bound intab tabled rq sq rbuf sbuf slots acks].
+Proof. destruct s as [k x b i tb q0 n rb sb sl ak sv]. brk. cbn [kd st bound intab tabled rq sq rbuf sbuf slots acks srv].
   intros Hq Hk ->. specialize (Hq eq_refl).
   destruct p; cbn [pk kind_eqb negb orb] in *; try discriminate; dm; cbn; intro H; subst; auto; try discriminate;
     try (specialize (Hq eq_refl); congruence). Qed.
 
 Lemma seg_alloc p s tm orc s' : o_act (seg Fixed p s tm orc) = AAlloc s' -> s' = client_sock.
-Proof. destruct s as [k x b i tb q0 n rb sb sl ak]. brk. cbn [kd st bound intab tabled rq sq rbuf sbuf slots acks].
+Proof. destruct s as [k x b i tb q0 n rb sb sl ak sv]. brk. cbn [kd st bound intab tabled rq sq rbuf sbuf slots acks srv].
   destruct p; dm; cbn; try discriminate; intro H; inversion H; reflexivity. Qed.
 
 Lemma seg_rank v p s tm orc q : o_act (seg v p s tm orc) = AGoto q -> rank q < rank p.
-Proof. destruct s as [k x b i tb q0 n rb sb sl ak]. brk. cbn [kd st bound intab tabled rq sq rbuf sbuf slots acks].
+Proof. destruct s as [k x b i tb q0 n rb sb sl ak sv]. brk. cbn [kd st bound intab tabled rq sq rbuf sbuf slots acks srv].
   destruct p; dm; cbn; try discriminate; intro H; inversion H; subst; cbn; lia. Qed.
 
 (* (iii) a closed socket: no segment waits, every result is a value or nfc.llcp.Error *)
@@ -190,7 +190,7 @@ Definition benign (a : act) : Prop :=
 Lemma seg_dead_shut p s orc :
   st s = SHUTDOWN -> intab s = false -> (kd s = DLC -> rq s = []) -> pk p (kd s) = true ->
   benign (o_act (seg Fixed p s true orc)).
-Proof. destruct s as [k x b i tb q0 n rb sb sl ak]. brk. cbn [kd st bound intab tabled rq sq rbuf sbuf slots acks].
+Proof. destruct s as [k x b i tb q0 n rb sb sl ak sv]. brk. cbn [kd st bound intab tabled rq sq rbuf sbuf slots acks srv].
   intros -> -> Hq. destruct p; destruct k; cbn [pk kind_eqb negb orb]; try discriminate; intros _;
     try (rewrite (Hq eq_refl)); cbn; dm; cbn; auto. Qed.
 
@@ -198,19 +198,19 @@ Lemma seg_dead_fresh p s orc :
   tabled s = false -> bound s = false -> intab s = false -> rq s = [] ->
   (kd s = DLC -> live (st s) = false) -> ptab p (kd s) = false -> pk p (kd s) = true ->
   benign (o_act (seg Fixed p s true orc)).
-Proof. destruct s as [k x b i tb q0 n rb sb sl ak]. brk. cbn [kd st bound intab tabled rq sq rbuf sbuf slots acks].
+Proof. destruct s as [k x b i tb q0 n rb sb sl ak sv]. brk. cbn [kd st bound intab tabled rq sq rbuf sbuf slots acks srv].
   intros -> -> -> -> Hl. destruct p; destruct k; cbn [pk kind_eqb negb orb ptab]; try discriminate; intros _ _;
     try (specialize (Hl eq_refl)); destruct x; cbn in *; try discriminate; dm; cbn; auto. Qed.
 
 Lemma seg_wait_not_close4 v p s tm orc c q : o_act (seg v p s tm orc) = AWait c q -> q <> PClose4.
-Proof. destruct s as [k x b i tb q0 n rb sb sl ak]. brk. cbn [kd st bound intab tabled rq sq rbuf sbuf slots acks].
+Proof. destruct s as [k x b i tb q0 n rb sb sl ak sv]. brk. cbn [kd st bound intab tabled rq sq rbuf sbuf slots acks srv].
   destruct p; dm; cbn; try discriminate; intro H; inversion H; subst; discriminate. Qed.
 
 (* once llc.sap[1] is None nothing enters the table any more *)
 Lemma seg_term_intab p s orc :
   intab s = false ->
   intab (o_sock (seg Fixed p s true orc)) = false /\ (forall s', o_act (seg Fixed p s true orc) <> AAlloc s').
-Proof. destruct s as [k x b i tb q0 n rb sb sl ak]. brk. cbn [kd st bound intab tabled rq sq rbuf sbuf slots acks].
+Proof. destruct s as [k x b i tb q0 n rb sb sl ak sv]. brk. cbn [kd st bound intab tabled rq sq rbuf sbuf slots acks srv].
   intros ->. destruct p; dm; cbn; split; try reflexivity; intros; try discriminate; try (intro; discriminate);
     destruct cb; cbn in *; discriminate. Qed.
 
@@ -231,7 +231,7 @@ Definition srv_out (a : act) : Prop :=
 Lemma seg_srv_shut p s orc :
   st s = SHUTDOWN -> intab s = false -> (kd s = DLC -> rq s = []) -> pk p (kd s) = true -> srv_class p = true ->
   srv_out (o_act (seg Fixed p s true orc)).
-Proof. destruct s as [k x b i tb q0 n rb sb sl ak]. brk. cbn [kd st bound intab tabled rq sq rbuf sbuf slots acks].
+Proof. destruct s as [k x b i tb q0 n rb sb sl ak sv]. brk. cbn [kd st bound intab tabled rq sq rbuf sbuf slots acks srv].
   intros -> -> Hq. destruct p; cbn [srv_class]; try discriminate; destruct k; cbn [pk kind_eqb negb orb]; try discriminate;
     intros _ _; try (rewrite (Hq eq_refl)); cbn; dm; cbn; auto;
     try (rewrite andb_false_r in *; discriminate). Qed.
@@ -240,16 +240,56 @@ Lemma seg_srv_fresh p s orc :
   tabled s = false -> bound s = false -> intab s = false -> rq s = [] ->
   (kd s = DLC -> live (st s) = false) -> ptab p (kd s) = false -> pk p (kd s) = true -> srv_class p = true ->
   srv_out (o_act (seg Fixed p s true orc)).
-Proof. destruct s as [k x b i tb q0 n rb sb sl ak]. brk. cbn [kd st bound intab tabled rq sq rbuf sbuf slots acks].
+Proof. destruct s as [k x b i tb q0 n rb sb sl ak sv]. brk. cbn [kd st bound intab tabled rq sq rbuf sbuf slots acks srv].
   intros -> -> -> -> Hl. destruct p; cbn [srv_class]; try discriminate; destruct k; cbn [pk kind_eqb negb orb ptab]; try discriminate;
     intros _ _ _; try (specialize (Hl eq_refl)); destruct x; cbn in *; try discriminate; dm; cbn; auto;
     try (rewrite andb_false_r in *; discriminate). Qed.
 
 Lemma seg_ret_not_sock v p s tm orc c : o_act (seg v p s tm orc) <> ARet (Ok (VSock c)).
-Proof. destruct s as [k x b i tb q0 n rb sb sl ak]. brk. cbn [kd st bound intab tabled rq sq rbuf sbuf slots acks].
+Proof. destruct s as [k x b i tb q0 n rb sb sl ak sv]. brk. cbn [kd st bound intab tabled rq sq rbuf sbuf slots acks srv].
   destruct p; dm; cbn; discriminate. Qed.
 
 Lemma rank_le4 p : rank p <= 4.
 Proof. destruct p; cbn; lia. Qed.
 Lemma rank_pos p : 1 <= rank p.
 Proof. destruct p; cbn; lia. Qed.
+
+(* ---- served sockets (accepted by a server loop, used by one serve thread) ------------------------- *)
+Lemma seg_srv v p s tm orc : srv (o_sock (seg v p s tm orc)) = srv s.
+Proof. destruct s as [k x b i tb q n rb sb sl ak sv]. brk. cbn [kd st bound intab tabled rq sq rbuf sbuf slots acks srv].
+  destruct p; dm; reflexivity. Qed.
+
+(* the socket is closed, or a data PDU is at the head of its queue and the state admits recv() *)
+Definition ready (s : sock) : Prop := st s = SHUTDOWN \/ (est_or_cw s = true /\ exists r, rq s = II :: r).
+
+(* poll('recv') on a DLC answers True only in that situation and does not change the socket *)
+Lemma seg_poll_true e s tm orc p :
+  (p = PPoll1 e \/ p = PPoll2 e) -> e = PollRecv -> kd s = DLC ->
+  o_act (seg Fixed p s tm orc) = ARet (Ok (VBool true)) -> ready (o_sock (seg Fixed p s tm orc)).
+Proof. destruct s as [k x b i tb q n rb sb sl ak sv]. brk. cbn [kd st bound intab tabled rq sq rbuf sbuf slots acks srv].
+  intros [-> | ->] -> ->; dm; cbn; intro H; try discriminate; right; unfold est_or_cw; cbn;
+    (split; [assumption|]); destruct i0; try discriminate; eexists; reflexivity. Qed.
+
+(* the serve thread's poll: where it can be next *)
+Lemma seg_poll_shape s tm orc p :
+  (p = PPoll0 PollRecv \/ p = PPoll1 PollRecv \/ p = PPoll2 PollRecv) ->
+  match o_act (seg Fixed p s tm orc) with
+  | AGoto q => q = PPoll1 PollRecv
+  | AWait c q => c = RecvReady /\ q = PPoll2 PollRecv
+  | ARet _ => True
+  | AAlloc _ => False
+  end.
+Proof. destruct s as [k x b i tb q n rb sb sl ak sv]. brk. cbn [kd st bound intab tabled rq sq rbuf sbuf slots acks srv].
+  intros [-> | [-> | ->]]; dm; cbn; auto. Qed.
+
+(* recv() on a ready DLC returns data or raises nfc.llcp.Error; it neither waits nor returns None *)
+Lemma seg_recv_ready s tm orc p :
+  (p = PRecv0 \/ p = PRecv1) -> kd s = DLC -> ready s ->
+  match o_act (seg Fixed p s tm orc) with
+  | AGoto q => q = PRecv1 /\ o_sock (seg Fixed p s tm orc) = s
+  | ARet r => r = Ok VData \/ is_llcp r = true
+  | _ => False
+  end.
+Proof. destruct s as [k x b i tb q n rb sb sl ak sv]. brk. unfold ready, est_or_cw.
+  cbn [kd st bound intab tabled rq sq rbuf sbuf slots acks srv].
+  intros [-> | ->] -> [-> | (He & r & ->)]; cbn; dm; cbn; auto; try (cbn in He; discriminate). Qed.
